@@ -246,12 +246,14 @@ def expected_contribution(tr, t, snap):
         ws, fs = snap.aw[t], snap.af[t]
         for i in range(min(len(ws), len(fs))):
             w, f = ws[i], fs[i]
-            wv = 0.0 if snap.wstate.get(w) == WS.ABSENCE else skill(w, t.name)
-            fv = 0.0 if snap.fstate.get(f) == FSs.ABSENCE else skill(f, t.name)
+            # absence is read from the resources' own absence lists (the specification), not from
+            # the state the code gave them
+            wv = 0.0 if snap.step in w.absence_time_list else skill(w, t.name)
+            fv = 0.0 if snap.step in f.absence_time_list else skill(f, t.name)
             total += wv * fv
         return total, "facility"
     for w in snap.aw[t]:
-        if snap.wstate.get(w) == WS.ABSENCE:
+        if snap.step in w.absence_time_list:
             continue
         total += skill(w, t.name)
     return total, "workers"
@@ -351,8 +353,8 @@ class MonC02(object):
                 tr.counters["C02.balances"] += 1
                 tr.counters["C02.kind." + kind] += 1
                 if kind in ("workers", "facility"):
-                    nabs = sum(1 for w in a.aw[t] if a.wstate.get(w) == WS.ABSENCE) + \
-                        sum(1 for f in a.af[t] if a.fstate.get(f) == FSs.ABSENCE)
+                    nabs = sum(1 for w in a.aw[t] if a.step in w.absence_time_list) + \
+                        sum(1 for f in a.af[t] if a.step in f.absence_time_list)
                     if len(a.aw[t]) >= 2:
                         tr.counters["C02.multi_worker_balances"] += 1
                     if nabs:
@@ -377,6 +379,7 @@ class MonC02(object):
                                    "task %s remaining changed during record" % t.ID, task=t)
 
     def on_end(self, tr, project):
+        b = tr.log_base
         for t in project.workflow.task_list:
             for k, (s, r) in enumerate(zip(t.state_record_list, t.remaining_work_amount_record_list)):
                 tr.counters["C02.log_checks"] += 1
@@ -385,7 +388,7 @@ class MonC02(object):
                                "log: task %s FINISHED at step %d with remaining %r" % (t.ID, k, r), task=t, k=k)
                     break
             # log-only: remaining work never changes at a step where the task is not logged WORKING
-            rl, sl = t.remaining_work_amount_record_list, t.state_record_list
+            rl, sl = t.remaining_work_amount_record_list[b:], t.state_record_list[b:]
             for k in range(1, min(len(rl), len(sl))):
                 if sl[k] not in (TS.WORKING,) and rl[k] != rl[k - 1] and sl[k] != TS.FINISHED:
                     if sl[k] == TS.READY and t.auto_task and tr.auto_flag:
@@ -1271,7 +1274,7 @@ class MonC14(object):
             ts = c.targeted_task_list
             n = len(c.state_record_list)
             seen_nn = seen_f = False
-            for k in range(n):
+            for k in range(tr.log_base, n):
                 if any(len(t.state_record_list) <= k for t in ts):
                     break
                 tr.counters["C14.log_checks"] += 1
